@@ -63,10 +63,12 @@ type c03env struct {
 	f   *file
 	// foreign: another process's view of the same counter file
 	foreign *file
-	now     time.Time
-	q       *verifrt.Quarantine
-	ctrs    []*Counter
-	names   []string
+	// rotations: rotate operations of the program that have returned
+	rotations int
+	now       time.Time
+	q         *verifrt.Quarantine
+	ctrs      []*Counter
+	names     []string
 	// begun is a 128-bit sum per counter (hi, lo)
 	begunHi, begunLo []uint64
 	mon              map[string]*vfMonFile
@@ -496,6 +498,7 @@ func runC03(res *verifrt.Result, base string, p c03prog, st c03strategy, rnd *ve
 				case "rotate":
 					e.now = e.now.Add(8 * 24 * time.Hour)
 					e.f.rotate1()
+					e.rotations++
 				case "rotate-fail":
 					// the week is over, but the next file cannot be opened (full disk,
 					// no memory for the mapping): the rotation gives up; increments that
